@@ -9,7 +9,7 @@ MULTI = {"strings", "ints", "floats"}
 VALID = {"int": ["41", "010", "12", "0099", "-3", "+8", "0", "123456789"],
          "float": ["2.5", "1e3", "-0.5", "7", ".25", "1e-2", "3.", "64"],
          "bool": ["true", "false", "1", "T", "FALSE", "0", "t", "F"],
-         "string": ["alpha", " pad ", "-g", "d=e", "be ta", "Zeta", "x,y", "7"],
+         "string": ["alpha", "--", " pad ", "-g", "d=e", "be ta", "Zeta", "x,y", "7"],
          "custom": ["t1", "t2", "t3", "t4", "t5", "t6", "t7", "t8"]}
 INVALID = {"int": ["zz", "0x10", "0b11", "1_0"], "float": ["1.2.3", "x1", "1e", "--2"], "bool": ["maybe", "yes", "tRuE", "2"],
            "custom": ["bad", "bad2", "bad3", "bad4"]}
@@ -120,11 +120,11 @@ def concrete(typ, role, ptr, default, envpat, clipat, rnd, custom=None, tag=""):
         spec = "[-o]..."
     else:
         argv = deliver_arg(cli)
-        spec = "[A...]" if not argv or argv[0] != "--" else "[-- A...]"
-        if argv and argv[0] == "--":
+        spec = "[A...]"
+        if argv and argv[0] == "--" and cli[0] != "--" and rnd.random() < 0.5:
+            # the spec ends the options itself (a first token -- would still be read as the marker: then the marker stays on the line)
             argv = argv[1:]
             spec = "-- [A...]"
-            argv = argv
     case = {"type": typ, "role": role, "ptr": ptr, "default": default, "envs": envs, "cli": cli, "argv": argv, "spec": spec}
     if custom:
         case["custom"] = custom
